@@ -59,4 +59,42 @@ def recGood {ρ : Type} (chi cpd : Option (EF K)) (r : OutRec K ρ) : Option Boo
   | [] => none
   | c0 :: _ => some (isGood chi cpd c0 (nDataSrc r.flags))
 
+/-! ## the two output paths as state (call histories)
+
+`FitInfoFile(path, 'w')` opens with `open(path, 'wb')`: whatever the path held is gone, and the file
+then holds exactly the records written through that handle.  Both writers are created before the
+loop, so after a call each of the two paths holds exactly what this call wrote, possibly nothing. -/
+
+/-- path ↦ records held by the file (no entry: no such file) -/
+abbrev OutFS (K : Type) (ρ : Type) := List (String × List (OutRec K ρ))
+
+/-- open for writing (truncate), write the records, close -/
+def OutFS.write {ρ : Type} (fs : OutFS K ρ) (path : String) (recs : List (OutRec K ρ)) : OutFS K ρ :=
+  (path, recs) :: fs.filter (fun e => !(e.1 == path))
+
+def OutFS.read {ρ : Type} (fs : OutFS K ρ) (path : String) : Option (List (OutRec K ρ)) :=
+  (fs.find? (fun e => e.1 == path)).map (·.2)
+
+/-- one `filter_output` call of a history -/
+structure FilterCall (K : Type) (ρ : Type) where
+  input : List (OutRec K ρ)
+  goodPath : String
+  badPath : String
+  chi : Option (EF K)
+  cpd : Option (EF K)
+
+/-- one call against the file system (the good writer is opened first, then the bad one) -/
+def filterOutputFS {ρ : Type} (fs : OutFS K ρ) (c : FilterCall K ρ) : Except FilterErr (OutFS K ρ) :=
+  match filterOutput c.chi c.cpd c.input with
+  | .ok (g, b) => .ok ((fs.write c.goodPath g).write c.badPath b)
+  | .error e => .error e
+
+/-- a history of calls, left to right -/
+def runFilterCalls {ρ : Type} : OutFS K ρ → List (FilterCall K ρ) → Except FilterErr (OutFS K ρ)
+  | fs, [] => .ok fs
+  | fs, c :: cs =>
+    match filterOutputFS fs c with
+    | .ok fs' => runFilterCalls fs' cs
+    | .error e => .error e
+
 end SF
